@@ -34,10 +34,10 @@ func C04(r *core.Report) {
 			checkReentrant(r, "C04.R5", f, "lookups")
 		}
 	}
-	r.Floor("C04.R1", 20)
+	r.Floor("C04.R1", 12)
 	r.Floor("C04.R2", 8)
 	r.Floor("C04.R3", 3)
-	r.Floor("C04.R4", 15)
+	r.Floor("C04.R4", 8)
 	r.Floor("C04.R5", 9)
 	c04ReaderCapsCoverWriter(r)
 	c04EntryCodecRoundTrip(r)
